@@ -33,6 +33,12 @@ enum Op {
     Truncate(String, u64),
     /// OPEN with O_TRUNC and the given access mode (what the kernel sends under ATOMIC_O_TRUNC)
     OpenTrunc(String, i32),
+    /// open read-only and keep the handle across later operations (e.g. across a copy-up of the file)
+    OpenHold(String),
+    /// fchmod through the kept handle (SETATTR with FATTR_FH); a plain chmod when no handle is kept for the path
+    HeldChmod(String, u32),
+    /// release the kept handle
+    CloseHeld(String),
     SetXattr(String, Vec<u8>),
     RemoveXattr(String),
 }
@@ -65,8 +71,17 @@ fn resolve(conn: &mut vkit::client::Conn<std::sync::Arc<fuse_backend_rs::overlay
 }
 
 /// Apply one operation through the client, the way the Linux client decomposes it.
-fn apply(o: &mut Ovl, op: &Op) -> Result<(), i32> {
+/// handles kept open by the client: path -> (node, handle)
+type Held = BTreeMap<String, (u64, u64)>;
+
+fn apply(o: &mut Ovl, op: &Op, held: &mut Held) -> Result<(), i32> {
     let c = &mut o.conn;
+    if let Op::Unlink(p) = op {
+        // the client closes its kept handle before it removes the name (keeps the reference model simple)
+        if let Some((ino, fh)) = held.remove(p) {
+            let _ = c.release(ino, fh, libc::O_RDONLY as u32, false);
+        }
+    }
     let isdir = |m: u32| m & libc::S_IFMT == libc::S_IFDIR;
     match op {
         Op::Create(p) | Op::Mkdir(p) | Op::Mknod(p) | Op::Symlink(p, _) => {
@@ -175,6 +190,33 @@ fn apply(o: &mut Ovl, op: &Op) -> Result<(), i32> {
             let fl = (*acc | libc::O_TRUNC) as u32;
             let (fh, _) = c.open(ino, fl, false)?;
             let _ = c.release(ino, fh, fl, false);
+            Ok(())
+        }
+        Op::OpenHold(p) => {
+            let (ino, m) = resolve(c, p)?;
+            if isdir(m) {
+                return Err(libc::EISDIR);
+            }
+            if m & libc::S_IFMT != libc::S_IFREG {
+                return Err(libc::EINVAL);
+            }
+            if !held.contains_key(p) {
+                let (fh, _) = c.open(ino, libc::O_RDONLY as u32, false)?;
+                held.insert(p.clone(), (ino, fh));
+            }
+            Ok(())
+        }
+        Op::HeldChmod(p, perm) => match held.get(p) {
+            Some((ino, fh)) => {
+                let (ino, fh) = (*ino, *fh);
+                c.setattr(ino, kconst("FATTR_MODE") | kconst("FATTR_FH"), &[("mode", (libc::S_IFREG | perm) as u64), ("fh", fh)]).map(|_| ())
+            }
+            None => apply(o, &Op::Chmod(p.clone(), *perm), held),
+        },
+        Op::CloseHeld(p) => {
+            if let Some((ino, fh)) = held.remove(p) {
+                let _ = c.release(ino, fh, libc::O_RDONLY as u32, false);
+            }
             Ok(())
         }
         Op::SetXattr(p, v) => {
@@ -327,6 +369,17 @@ fn apply_model(m: &mut BTreeMap<String, MNode>, op: &Op) -> Result<(), i32> {
             }
         }
         Op::OpenTrunc(p, _) => apply_model(m, &Op::Truncate(p.clone(), 0)),
+        Op::OpenHold(p) => {
+            parent_of(m, p)?;
+            match model_get(m, p) {
+                None => Err(libc::ENOENT),
+                Some(MNode::Dir { .. }) => Err(libc::EISDIR),
+                Some(MNode::Link { .. }) => Err(libc::EINVAL),
+                Some(MNode::File { .. }) => Ok(()),
+            }
+        }
+        Op::HeldChmod(p, perm) => apply_model(m, &Op::Chmod(p.clone(), *perm)),
+        Op::CloseHeld(_) => Ok(()),
         Op::Truncate(p, sz) => {
             let (d, leaf) = parent_of(m, p)?;
             let dir = model_dir_mut(m, &d).ok_or(libc::ENOENT)?;
@@ -363,7 +416,12 @@ fn apply_model(m: &mut BTreeMap<String, MNode>, op: &Op) -> Result<(), i32> {
     }
 }
 
-fn gen_op(r: &mut Rng, m: &BTreeMap<String, MNode>) -> Op {
+fn gen_op(r: &mut Rng, m: &BTreeMap<String, MNode>, held: &[String]) -> Op {
+    // operations on kept handles
+    if !held.is_empty() && r.chance(1, 6) {
+        let p = r.pick(held).clone();
+        return if r.chance(3, 4) { Op::HeldChmod(p, *r.pick(&[0o600u32, 0o644, 0o755, 0o640])) } else { Op::CloseHeld(p) };
+    }
     let mut flat = BTreeMap::new();
     flatten(m, "", &mut flat);
     let files: Vec<&String> = flat.iter().filter(|(_, n)| n.kind == 'f').map(|(p, _)| p).collect();
@@ -389,8 +447,12 @@ fn gen_op(r: &mut Rng, m: &BTreeMap<String, MNode>) -> Op {
         6 | 7 => Op::Unlink(anyp(r)),
         8 | 9 => Op::Rmdir(if r.chance(3, 4) && dirs.len() > 1 { dirs[r.range(1, dirs.len() as u64 - 1) as usize].clone() } else { anyp(r) }),
         10 => {
-            let n = r.range(1, 40) as usize;
-            Op::Write(filep(r), r.below(30), r.bytes(n))
+            if held.len() < 3 && r.chance(1, 3) {
+                Op::OpenHold(filep(r))
+            } else {
+                let n = r.range(1, 40) as usize;
+                Op::Write(filep(r), r.below(30), r.bytes(n))
+            }
         }
         11 => Op::Chmod(anyp(r), *r.pick(&[0o600u32, 0o644, 0o755, 0o700, 0o444, 0o1777])),
         12 => {
@@ -519,10 +581,12 @@ pub fn run(args: &Args, rep: &mut Report) {
             }};
         }
         let nops = if verdict.is_some() { 0 } else { r.range(10, if args.tier == "thorough" { 60 } else { 30 }) };
+        let mut held: Held = BTreeMap::new();
         for step in 0..nops {
-            let op = gen_op(&mut r, &model);
+            let held_paths: Vec<String> = held.keys().cloned().collect();
+            let op = gen_op(&mut r, &model, &held_paths);
             let op_path = match &op {
-                Op::Write(p, ..) | Op::Chmod(p, _) | Op::Truncate(p, _) | Op::OpenTrunc(p, _) | Op::SetXattr(p, _) | Op::Link(p, _) => Some(p.clone()),
+                Op::Write(p, ..) | Op::Chmod(p, _) | Op::HeldChmod(p, _) | Op::Truncate(p, _) | Op::OpenTrunc(p, _) | Op::SetXattr(p, _) | Op::Link(p, _) => Some(p.clone()),
                 _ => None,
             };
             // the object a copy-up would start from
@@ -539,7 +603,7 @@ pub fn run(args: &Args, rep: &mut Report) {
                     }
                 }
             }
-            let got = apply(&mut o, &op).err().unwrap_or(0);
+            let got = apply(&mut o, &op, &mut held).err().unwrap_or(0);
             let mut m2 = model.clone();
             let want = apply_model(&mut m2, &op).err().unwrap_or(0);
             trace.push(format!("{:?} -> {} (reference: {})", op, errclass(got), errclass(want)));
@@ -547,8 +611,8 @@ pub fn run(args: &Args, rep: &mut Report) {
             rep.key(&format!("{}|{}|{}|upper{}|lowers{}", format!("{:?}", op).split('(').next().unwrap_or(""), errclass(want), errclass(got), !no_upper, nlower));
             rep.count(&format!("op:{}", format!("{:?}", op).split('(').next().unwrap_or("")), 1);
             if no_upper {
-                // every modifying operation fails and changes nothing
-                if got == 0 {
+                // every modifying operation fails and changes nothing (a read-only open / its release modify nothing)
+                if got == 0 && !matches!(op, Op::OpenHold(_) | Op::CloseHeld(_)) {
                     flag!(("C10:no-upper-modified".into(), format!("without an upper layer `{:?}` succeeded", op)));
                 }
             } else {
@@ -634,7 +698,7 @@ pub fn run(args: &Args, rep: &mut Report) {
                         if m.mode() & libc::S_IFMT != omode & libc::S_IFMT {
                             flag!(("C11:copy-up-type".into(), format!("copy-up of {} changed its type: {:#o} -> {:#o}", p, omode, m.mode())));
                         }
-                        let want_perm = if let Op::Chmod(_, np) = &op { *np } else { omode & 0o7777 };
+                        let want_perm = if let Op::Chmod(_, np) | Op::HeldChmod(_, np) = &op { *np } else { omode & 0o7777 };
                         if m.mode() & libc::S_IFMT != libc::S_IFLNK && m.permissions().mode() & 0o7777 != want_perm {
                             flag!(("C11:copy-up-mode".into(), format!("copy-up of {} for `{:?}`: permission bits {:#o}, expected {:#o}", p, op, m.permissions().mode() & 0o7777, want_perm)));
                         }
